@@ -52,9 +52,10 @@ def make_node(n):
     if kind == 'grp':
         return ac.ConnectorDegreeGroupingNode(n['id'])
     if kind == 'dv':
+        nm_ = n.get('label', n['id'])    # same-named design-variable nodes (one "size" per option subtree)
         if 'options' in n:
-            return ac.DesignVariableNode(n['id'], options=list(n['options']))
-        return ac.DesignVariableNode(n['id'], bounds=tuple(n['bounds']))
+            return ac.DesignVariableNode(nm_, options=list(n['options']))
+        return ac.DesignVariableNode(nm_, bounds=tuple(n['bounds']))
     if kind == 'metric':
         t = n.get('type')
         type_ = getattr(ac.MetricType, t) if t else None
@@ -174,8 +175,9 @@ def build_sup(sup_spec, src_built, initialize=True):
     b = Built()
     b.spec = sup_spec
     dsg = SupDSG()
+    refs = sup_spec.get('refs') or {}   # node id -> [display name, ref]: same-named SupNodes told apart by their ref
     for n in sup_spec['nodes']:
-        obj = SupNode(n)
+        obj = SupNode(refs[n][0], ref=refs[n][1]) if n in refs else SupNode(n)
         b.node[n] = obj
         b._name[obj] = n
     for u, v in sup_spec.get('edges', []):
